@@ -62,6 +62,8 @@ def check(inputs, book):
         sample = model.draw_sample(int(sspec["n"]), random_state=int(sspec["seed"]))
         if sspec.get("round") is not None:
             sample = np.round(sample, int(sspec["round"]))  # ties
+        if sspec.get("as_int"):
+            sample = np.round(sample * float(sspec["as_int"])).astype(np.int64)  # whole units in an integer-typed array
     kwargs = dict(deg_step=deg, sample=sample, allowed_error=err)
     if sample is None:
         kwargs["n"] = inputs.get("n")
@@ -209,8 +211,11 @@ def _scenarios(tier, seed):
             sc.update({"alpha": alpha, "allowed_error": err, "deg_step": deg})
             if rng.random() < 0.8:
                 sc["sample"] = {"n": n, "seed": int(rng.integers(1 << 31))}
-                if rng.random() < 0.2:
+                r2 = rng.random()
+                if r2 < 0.2:
                     sc["sample"]["round"] = 1
+                elif r2 < 0.35:
+                    sc["sample"]["as_int"] = 10  # e.g. decimetres / tenths of a second stored as integers
             else:
                 sc["sample"] = None
                 sc["n"] = None if alpha >= 0.005 else n
